@@ -608,9 +608,14 @@ class Oracle:
         if k == "sub":
             inp = typeof(node[1])[0]
             e2 = dict(env)
+            delta_names = {t[0] for d in walk(node[1]) if d[0] == "delta" for t in d[1]}
             for name, v in node[2]:
                 if name not in inp:
                     continue
+                if name in delta_names and isinstance(v, tuple) and v and v[0] == "un":
+                    # funsor reads Delta(x = p)(x = T(y)) for an invertible transform T as a change of variables (a point
+                    # mass over y at T^-1(p), with the log-Jacobian), not as the log-density evaluated at T(y)
+                    raise OutOfDomain("a Delta's variable substituted by a transformed variable (change of variables)")
                 e2[name] = self.ev_value(v, env, inp[name])
             return ev(node[1], e2)
         if k == "stack":
